@@ -414,6 +414,10 @@ SVG_OPTS = [{}, {'xmldecl': False}, {'svgns': False}, {'nl': False}, {'omitsize'
             {'light': '#ffffff80'}, {'encoding': None}, {'encoding': 'iso-8859-1', 'title': 'Grüße'}]
 
 
+def allv_index(v):
+    return ['M1', 'M2', 'M3', 'M4'].index(v)
+
+
 def gen_vector(tier, seed_):
     r = gen.rng(seed_, 'C10')
     specs = []
@@ -445,6 +449,14 @@ def gen_vector(tier, seed_):
     for v in ([7, 20, 40] if tier == 'quick' else list(range(4, 41))):
         for kind in ('svg', 'eps', 'pdf', 'tex'):
             add(kind, v, {'scale': r.choice((1, 2, 0.5))})
+    # integral floats as scale, in particular products (size + 2 border) x scale that are multiples of 10 (a number formatter that strips
+    # trailing zeros as a character set turns 90.0 into 9)
+    for v, b in ((5, 4), (5, 0), (10, 4), ('M1', 2), (1, 2), (2, 0), (15, 4), (40, 4)):
+        for sc in (2.0, 10.0, 20.0, 1.0, 0.4, 100.0):
+            for kind in ('svg', 'eps', 'pdf', 'tex'):
+                size = (9 + 2 * (allv_index(v) + 1)) if isinstance(v, str) else 17 + 4 * v
+                if (size + 2 * b) * sc <= 1900:
+                    add(kind, v, {'scale': sc, 'border': b})
     # the middle of every range: random version, scale (2-3 decimals), border
     allv = ['M1', 'M2', 'M3', 'M4'] + list(range(1, 41))
     for _ in range(80 if tier == 'quick' else 800):
